@@ -35,3 +35,47 @@ Definition dup_of_records (rs : list (list text)) : option name :=
   end.
 Definition csv_duplicate_name (s : text) : option name :=
   match s with [] => None | _ => dup_of_records (split_records s) end.
+
+(* the payload of NonBooleanCellValue: the text of the first cell that is no Boolean spelling, in the order the
+   import reads them (records in order; in a record the input cells in the order of the sorted variables, then
+   the output cell) *)
+Fixpoint bad_in_cells (r : list text) (cols vars : list name) : option text :=
+  match vars with
+  | [] => None
+  | x :: vs =>
+      match nth_error r (column_of x cols) with
+      | None => None
+      | Some c => match string_to_bool c with None => Some c | Some _ => bad_in_cells r cols vs end
+      end
+  end.
+Definition bad_in_record (w : nat) (cols vars : list name) (r : list text) : option text :=
+  if negb (Nat.eqb (length r) w) then None
+  else match parse_cells r cols vars with
+       | Ok _ => match last_cell r with
+                 | Some c => match string_to_bool c with None => Some c | Some _ => None end
+                 | None => None
+                 end
+       | _ => bad_in_cells r cols vars
+       end.
+Fixpoint bad_in_records (w : nat) (cols vars : list name) (rs : list (list text)) : option text :=
+  match rs with
+  | [] => None
+  | r :: rest => match parse_record w cols vars r with
+                 | Ok _ => bad_in_records w cols vars rest
+                 | _ => bad_in_record w cols vars r
+                 end
+  end.
+Definition bad_cell_of_records (rs : list (list text)) : option text :=
+  match header_and_data rs with
+  | Ok (is_header, first, rest) =>
+      let w := length first in
+      match (if is_header
+             then match first_dup [] (removelast first) with Some _ => None | None => Some (removelast first) end
+             else Some (map x_name (seq 0 (w - 1)))) with
+      | None => None
+      | Some cols => bad_in_records w cols (set_of_list cols) (if is_header then rest else first :: rest)
+      end
+  | _ => None
+  end.
+Definition csv_bad_cell (s : text) : option text :=
+  match s with [] => None | _ => bad_cell_of_records (split_records s) end.
